@@ -398,17 +398,30 @@ def parse_bidirectional_solver(fn, solvers):
     order_res, order_f = parts(res, 0), parts(filt, 2)
     if order_res != order_f or len(set(order_res)) != len(order_res):
         _fail(fn, "results and filtered are concatenated in different orders")
-    pairs = []
-    for s in order_res:
-        pairs += solvers[s]
-    # other statements must be of known kinds
+    # other statements must be of known kinds; follow which reduce_pit mode the active pit has when each
+    # sub-solver runs and at the end (= when finalize_iteration restores a rejected step)
+    cur, mode_of = None, {}
     for st in fn.body:
-        if _is_docstring(st) or _is_logger_call(st) or isinstance(st, (ast.Return, ast.Assign)):
+        if _is_docstring(st) or _is_logger_call(st) or isinstance(st, ast.Return):
             continue
-        if _call_name(st) in ("reduce_pit", "extract_results_active_pit", "identify_active_nodes_branches"):
+        if isinstance(st, ast.Assign):
+            if isinstance(st.value, ast.Call) and isinstance(st.value.func, ast.Name) and st.value.func.id in solvers:
+                if cur is None:
+                    _fail(st, "solve function called before any reduce_pit")
+                mode_of[st.value.func.id] = cur
+            continue
+        if _call_name(st) == "reduce_pit":
+            cur = _mode_arg(st.value, "hydraulics")
+            continue
+        if _call_name(st) in ("extract_results_active_pit", "identify_active_nodes_branches"):
             continue
         _fail(st, "statement of %s not recognised" % fn.name)
-    return pairs
+    pairs = []
+    for s in order_res:
+        if s not in mode_of:
+            _fail(fn, "no reduce_pit mode known for %s" % s)
+        pairs += [dict(p, reduce_mode=mode_of[s]) for p in solvers[s]]
+    return pairs, cur
 
 
 # ------------------------------------------------------------------------------------------------
@@ -519,13 +532,23 @@ def extract(path=None):
             raise TranslationError("function %s not found in pipeflow.py" % n)
     solvers = {"solve_hydraulics": parse_solver(fns["solve_hydraulics"]),
                "solve_temperature": parse_solver(fns["solve_temperature"])}
-    solvers["solve_bidirectional"] = parse_bidirectional_solver(fns["solve_bidirectional"], dict(solvers))
+    bid_pairs, bid_final = parse_bidirectional_solver(fns["solve_bidirectional"], dict(solvers))
     stages = []
     for s in ("hydraulics", "heat_transfer", "bidirectional"):
         d = parse_stage(fns[s])
-        if d["solver"] not in solvers:
+        if d["solver"] == "solve_bidirectional":
+            if any(t.startswith("reduce_pit:") for t in d["body"]):
+                raise TranslationError("stage %s reduces the pit itself and inside its solve function" % s)
+            d["pairs"], d["final_reduce_mode"] = bid_pairs, bid_final
+        elif d["solver"] in solvers:
+            modes = [t.split(":", 1)[1] for t in d["body"][:d["body"].index(
+                [t for t in d["body"] if "newton_raphson" in t][0])] if t.startswith("reduce_pit:")]
+            if len(modes) != 1:
+                raise TranslationError("stage %s: exactly one reduce_pit before the Newton loop expected" % s)
+            d["pairs"] = [dict(p, reduce_mode=modes[0]) for p in solvers[d["solver"]]]
+            d["final_reduce_mode"] = modes[0]
+        else:
             raise TranslationError("stage %s uses unknown solve function %s" % (s, d["solver"]))
-        d["pairs"] = solvers[d["solver"]]
         stages.append(d)
     return {"stages": stages, "pipeflow": parse_pipeflow(fns["pipeflow"]),
             "rerun_hydraulics": parse_rerun(fns["rerun_hydraulics"], "hydraulics", "hydraulics"),
@@ -539,8 +562,8 @@ def _copt(x):
 def _cpair(p):
     (np_, nc, nr), (op, oc, orr) = p["new"], p["old"]
     return ("{| ps_new_pit := %s; ps_new_col := %s; ps_new_rows := %s; ps_old_pit := %s; ps_old_col := %s; "
-            "ps_old_rows := %s; ps_filter := %s |}" % (cstr(np_), cstr(nc), _copt(nr), cstr(op), cstr(oc),
-                                                       _copt(orr), _copt(p["filter"])))
+            "ps_old_rows := %s; ps_filter := %s; ps_reduce_mode := %s |}"
+            % (cstr(np_), cstr(nc), _copt(nr), cstr(op), cstr(oc), _copt(orr), _copt(p["filter"]), cstr(p["reduce_mode"])))
 
 
 def generate(path=None):
@@ -551,11 +574,11 @@ def generate(path=None):
     ents = []
     for s in d["stages"]:
         ents.append("  {| sw_name := %s; sw_solver := %s;\n     sw_vars := %s;\n     sw_tols := %s;\n     sw_pits := %s;\n"
-                    "     sw_iter := %s;\n     sw_pairs := %s;\n     sw_body := %s |}"
+                    "     sw_iter := %s;\n     sw_pairs := %s;\n     sw_body := %s;\n     sw_final_reduce_mode := %s |}"
                     % (cstr(s["name"]), cstr(s["solver"]), clist(map(cstr, s["vars"])), clist(map(cstr, s["tols"])),
                        clist(map(cstr, s["pits"])), cstr(s["iter"]),
                        "[\n       " + ";\n       ".join(_cpair(p) for p in s["pairs"]) + "]",
-                       clist(map(cstr, s["body"]))))
+                       clist(map(cstr, s["body"])), cstr(s["final_reduce_mode"])))
     L.append("Definition stages : list stage_wiring := [\n%s\n]." % ";\n".join(ents))
     L.append("")
     L.append("Definition pipeflow_body : list string := %s." % clist(map(cstr, d["pipeflow"])))
